@@ -26,6 +26,37 @@ def _scaled(e):
     return isinstance(e, ast.BinOp) and isinstance(e.op, (ast.Mult, ast.Div))
 
 
+def exponent_never_written(ctx, rule):
+    """C18.R3 part, shared with C04 / C05: a decimal in exponent notation is not a valid xsd:decimal - the report fails validation
+    (no report for a committed version) or goes out invalid."""
+    repo = ctx.repo
+    dc = repo.cls(f'{DC}.DecimalConverter')
+    tx = dc.methods.get('to_xml')
+    # exponent form -> fixed point
+    dx = dc.methods.get('_decimal_to_xml')
+    ok = False
+    if dx is not None:
+        gd = cfg_of(dx)
+        rets = [n for n in gd.nodes if n.kind == 'return']
+        ok = bool(rets)
+        for r in rets:
+            facts = gd.facts_at(r)
+            v = r.stmt.value
+            exp_branch = any(pol is True and "'E' in" in txt for txt, pol in facts.both())
+            if exp_branch:
+                fixed = (isinstance(v, ast.Call) and call_name(v) == 'format' and len(v.args) == 2 and
+                         isinstance(v.args[1], ast.Constant) and v.args[1].value == 'f') or \
+                        (isinstance(v, ast.JoinedStr) and ':f' in unparse(v))
+                ok = ok and fixed
+            else:
+                no_exp = any(pol is False and "'E' in" in txt for txt, pol in facts.both()) or \
+                    any(pol is False and "'e' in" in txt for txt, pol in facts.both())
+                ok = ok and no_exp
+    ctx.ob(rule, 'exponent notation', ok,
+           '_decimal_to_xml returns str(value) only when it contains no exponent and the fixed-point format otherwise',
+           fi=dx or tx)
+
+
 def decimal_lexical_rules(ctx, rule):
     """DecimalConverter.to_xml: lexical clean-up touches only fractional zeros; the 18 digit budget counts digits only."""
     repo = ctx.repo
@@ -172,6 +203,8 @@ def run(ctx):  # noqa: C901, PLR0912
     bad = [c for c in calls_in(dur.node, 'int') if c.args and _scaled(c.args[0])]
     ctx.ob('C18.R1', 'duration_string', not bad, 'duration_string: no truncating int() of a scaled value', fi=dur)
 
+    from .c08 import duration_fraction_is_decimal
+    duration_fraction_is_decimal(ctx, 'C18.R1')
     # ------------------------------------------------------------------ R2
     ts = repo.cls(f'{DC}.TimestampConverter')
     rd, wr = ts.methods.get('to_py'), ts.methods.get('to_xml')
@@ -191,6 +224,30 @@ def run(ctx):  # noqa: C901, PLR0912
     # the writer rounds to the nearest millisecond
     ok = any(call_name(c) == 'round' and c.args and _scaled(c.args[0]) for c in calls_in(wr.node))
     ctx.ob('C18.R2', 'timestamp writer rounds', ok, 'TimestampConverter.to_xml rounds the scaled value', fi=wr)
+    # ... and it rounds the whole value once: the written integer is round(<value> * 1000) of the parameter itself. A writer that
+    # splits the value into seconds and a separately rounded millisecond part loses the carry (12.9996 -> '121000') or pads wrongly
+    from engine.deps import Deps
+    dw = Deps(wr.node)
+    wparams = [a.arg for a in wr.node.args.args if a.arg not in ('self', 'cls')]
+    gw_ = cfg_of(wr)
+    whole = []
+    for n_ in gw_.real_nodes():
+        for c in n_.calls():
+            if call_name(c) == 'round' and c.args:
+                a0 = gw_.origin_expr(n_, c.args[0]) or c.args[0]
+                if isinstance(a0, ast.Name) and len(local_assignments(wr.node).get(a0.id, [])) == 1:
+                    a0 = local_assignments(wr.node)[a0.id][0]
+                whole.append(isinstance(a0, ast.BinOp) and isinstance(a0.op, ast.Mult) and
+                             any(isinstance(x, ast.Name) and x.id in wparams for x in (a0.left, a0.right)) and
+                             any(isinstance(x, ast.Constant) for x in (a0.left, a0.right)))
+    trunc = [unparse(c) for c in calls_in(wr.node) if call_name(c) in ('int', 'divmod', 'floor', 'trunc', 'modf') and c.args and
+             any(p_ in dw.sources(c.args[0]) | {unparse(c.args[0])} or f'param:{p_}' in dw.sources(c.args[0]) for p_ in wparams)]
+    ok = len(whole) == 1 and whole[0] and not trunc
+    ctx.ob('C18.R2', 'timestamp writer rounds the whole value once', ok,
+           'TimestampConverter.to_xml writes round(value * 1000) of the value as a whole' if ok else
+           f'TimestampConverter.to_xml does not round the value as a whole (round of the parameter times a constant: {whole}; '
+           f'truncating split: {trunc}): a fraction that rounds up to 1000 ms is written as a fourth digit instead of being '
+           f'carried into the seconds (12.9996 s -> "121000"), the time read back is wrong by orders of magnitude', fi=wr)
 
     # ------------------------------------------------------------------ R3
     dc = repo.cls(f'{DC}.DecimalConverter')
@@ -227,29 +284,7 @@ def run(ctx):  # noqa: C901, PLR0912
            f'on the Decimal path {[unparse(c)[:40] for c in lossy_here]} converts to a binary float (rounded to 1-3 '
            f'fractional digits): Decimal("1E-7") is written as 0', fi=tx, node=lossy_here[0] if lossy_here else None,
            witness={'functions_on_decimal_path': sorted(seen)})
-    # exponent form -> fixed point
-    dx = dc.methods.get('_decimal_to_xml')
-    ok = False
-    if dx is not None:
-        gd = cfg_of(dx)
-        rets = [n for n in gd.nodes if n.kind == 'return']
-        ok = bool(rets)
-        for r in rets:
-            facts = gd.facts_at(r)
-            v = r.stmt.value
-            exp_branch = any(pol is True and "'E' in" in txt for txt, pol in facts.both())
-            if exp_branch:
-                fixed = (isinstance(v, ast.Call) and call_name(v) == 'format' and len(v.args) == 2 and
-                         isinstance(v.args[1], ast.Constant) and v.args[1].value == 'f') or \
-                        (isinstance(v, ast.JoinedStr) and ':f' in unparse(v))
-                ok = ok and fixed
-            else:
-                no_exp = any(pol is False and "'E' in" in txt for txt, pol in facts.both()) or \
-                    any(pol is False and "'e' in" in txt for txt, pol in facts.both())
-                ok = ok and no_exp
-    ctx.ob('C18.R3', 'exponent notation', ok,
-           '_decimal_to_xml returns str(value) only when it contains no exponent and the fixed-point format otherwise',
-           fi=dx or tx)
+    exponent_never_written(ctx, 'C18.R3')
     # Decimal reader uses Decimal()
     rdx = dc.methods.get('to_py')
     src = xsrc(rdx)
